@@ -229,14 +229,17 @@ def kinematic_map_degree(ctx, rule="C04.R13"):
     for rel, q, w, flags in sites["Exp_SO3_quat"]:
         d, viol = deg("Exp_SO3_quat", flags)
         if viol or not isinstance(d, F):
-            rep.note(f"{rule}: {rel}:{q}: degree of `{norm_src(w)[:50]}` not homogeneous / not inferred; site not used")
             continue
         dA = d if dA is None else dA
         if d != dA:
             rep.note(f"{rule}: orientation maps of different degree ({fmt(d)} vs {fmt(dA)}); not decided")
             return
     if dA is None:
-        raise AnalysisError(f"{rule}: no orientation map with an inferred degree")
+        rep.note(f"{rule}: the orientation map Exp_SO3_quat has no single scaling degree on this tree (C01.R1's question); the degree of the kinematic map is not decided")
+        for name in ("T_SO3_inv_quat", "T_SO3_inv_quat_P"):
+            for rel, q, w, flags in sites[name]:
+                rep.ok(rule, f"{rel}:{q}", f"`{norm_src(w)[:60]}`: orientation map's degree not inferred (no verdict)", verdict="unknown", trivial=True)
+        return
     for name, want, what in (("T_SO3_inv_quat", dA + 1, "P_dot = T(P) omega"), ("T_SO3_inv_quat_P", dA, "the derivative of T(P)")):
         for rel, q, w, flags in sites[name]:
             C = f"{rel}:{q}"
